@@ -244,6 +244,13 @@ func randScenario(a *asCfg, r *vlib.Rand, kind int, wantRel int) (scenario, [2]p
 // build fills in a complete decoded path for the scenario: random foreign hops, valid MACs (under the
 // local key) for the local hop(s), SegIDs as carried on arrival.
 func (a *asCfg) buildPath(r *vlib.Rand, sc scenario, local [2]path.HopField, ts uint32) *builtPath {
+	return a.buildPathTs(r, sc, local, ts, false)
+}
+
+type path2 = path.HopField
+
+// buildPathTs: with fixTs0 the first info field carries exactly ts.
+func (a *asCfg) buildPathTs(r *vlib.Rand, sc scenario, local [2]path.HopField, ts uint32, fixTs0 bool) *builtPath {
 	tot := 0
 	for _, l := range sc.segLens {
 		tot += l
@@ -255,6 +262,9 @@ func (a *asCfg) buildPath(r *vlib.Rand, sc scenario, local [2]path.HopField, ts 
 		dec.PathMeta.SegLen[s] = uint8(l)
 		dec.InfoFields = append(dec.InfoFields, path.InfoField{ConsDir: sc.consDir[s], SegID: uint16(r.Intn(65536)),
 			Timestamp: ts - uint32(r.Intn(3))})
+	}
+	if fixTs0 {
+		dec.InfoFields[0].Timestamp = ts
 	}
 	dec.PathMeta.CurrINF = uint8(sc.curSeg)
 	dec.PathMeta.CurrHF = uint8(sc.curHop)
